@@ -3,7 +3,7 @@ prop(
     quick=[("native", 16)],
     thorough=[("native", 16), ("asan", 8), ("valgrind", 5)],
     level="exploration",
-    min_evals={"quick": 3_500_000, "thorough": 100_000_000},
+    min_evals={"quick": 7_500_000, "thorough": 230_000_000},
     rule=(
         "objects are built with the library's own builders under a pool signer from generated, profile-conforming inputs, 16 kinds of directly generated inputs plus 10 slots of inputs taken from decoded foreign objects (below) in rotation "
         "(TA / CA / EE / detached-EE / router certificates, CRL, manifest, ROA (twice), ASPA, CA CSR, identity TA / EE certificates, SignedMessage, "
@@ -44,7 +44,22 @@ prop(
         "evaluations (strict decoder, validator under the same validator and strictness under which the foreign original was accepted and at an instant inside the new window — left out, and counted, when "
         "the original was not valid —, byte-identical re-encoding, accessor table rows incl. the states). A foreign object the library refuses is counted (reissue:foreign_rejected) and nothing is derived "
         "from it. Case signatures of these flows: (kind, entry-point path, spelling deviations (all of them if at most two, else their number)), one class per (kind, deviation), (kind, how written and "
-        "decoded), plus the field classes of the foreign certificate and of the new serial / window."
+        "decoded), plus the field classes of the foreign certificate and of the new serial / window. "
+        "Structural encoders into part-writing and refusing sinks (c05_sink, run for every pair of values whose first table pass agreed, i.e. for all 26 slots incl. the re-issue flows): "
+        "every encoder the object and its decoded twin hand out — the object (Cert / Crl / Manifest / Roa / Aspa / Csr / IdCert / SignedMessage .encode_ref), the to-be-signed part (TbsCert, "
+        "TbsCertList, TbsIdCert), Crl::signed_data() and a SignedData / SignedObject decoded from the same octets (the encoders that write the signature value), the content (ManifestContent, "
+        "RouteOriginAttestation, AsProviderAttestation, RevokedCertificates, the OctetString of a signed message), the EE certificate of a signed object with its own TbsCert — gets the full menu: "
+        "sinks of the harness that take 1 / 7 / 64 / 200 / 256 octets per call, a seed-chosen varying pattern of 2-4 limits (1..300 or everything), one that answers every 2nd..5th call with "
+        "ErrorKind::Interrupted, three with room for R octets that refuse for good afterwards (error or Ok(0), with or without taking the part that fits; R once inside the last 300 octets where the "
+        "signature value is, else 0 / n-1 / uniform), three that refuse one call (seed-chosen, and the very last one) with an error or Ok(0) and then carry on, std's &mut [u8] and Cursor<&mut [u8]> "
+        "(too small by 1..300 or exact) and std's BufWriter (capacity 1 / 8 / 32 / 300) over a sink taking 1 / 5 / 100; bcder mode DER (2 of 3) or BER (1 of 3; same octets). The leaf encoders "
+        "reachable from accessors (Name, PublicKey.encode_ref / encode_subject_name, Validity, Serial, KeyIdentifier, KeyUsage, Rsync / Https encode_general_name, IpResources, AsResources, "
+        "RpkiSignatureAlgorithm.x509_encode, Time.encode_varied, CrlEntry, FileAndHash, Oid; a seed-chosen third of the certificate's leaves per certificate) get 1 octet per call, 2 / 3 / 7 / 16 per call, the varying pattern, "
+        "one refusal for good and one refused call (and the interrupting sink on a third). Encodings above 8192 octets get the 1- and 7-octet sinks on a quarter of the cases. One evaluation = one sink run "
+        "judged by one law: Ok(()) implies that exactly the expected octets arrived. Expected octets: to_captured() of the built object (decoded, validated and re-encoded by the oracles above) for "
+        "everything that encodes the whole object; the TLV cut out of those octets by a TLV reader of the harness for TbsCert / TbsCertList / TbsIdCert (first element), eContent (content of "
+        "ContentInfo[1][0][2][1][0]) and the EE certificate ([1][0][3][0]) — the Vec output of these encoders is first compared with that cut (signature vec-differs-from-the-octets-of-the-object); "
+        "what the same encoder writes into a Vec for the leaves. Case signatures of this part: (encoder path, built / decoded, sink kind, some / no call taken short, ok / err) and (encoder path, side, object kind)."
     ),
     assumptions=[
         "times are whole seconds with years 1..9999 (X.509 times have no fractions; a Time with nanoseconds is outside the profile)",
@@ -65,19 +80,27 @@ prop(
         "Every other input from a relaxed-decoded object (URIs, serials, times, key identifiers, manifest content, prefixes, providers) is judged",
         "foreign objects use canonical RFC 3779 encodings and whole-second times; a foreign object the library's decoder refuses is not a subject of C05",
         "RSA signing keys come from a cached pool of 4 keys (one P-256 public key for router certificates); key material is not a subject of the property",
+        "streaming: the statement's 'encodes to DER that the library's own decoder accepts' is read as holding for every io::Write the encoder is given, not only for the in-memory writers behind "
+        "to_captured(): an encoder that returns Ok(()) must have delivered exactly the object's octets. What it returns after the sink refused (error, Ok(0)) is open as long as it is not Ok with other "
+        "octets; an error although the sink only took calls short or answered Interrupted (nothing refused) is counted (stream:error_although_nothing_was_refused, stream:error_after_interrupts_only), "
+        "not judged; sinks never lie about the count they return and flush() always succeeds (no second chance to report)",
+        "a value holding a part captured from a relaxed-mode decoding is refused by bcder in DER mode by assertion (see above); such a value is streamed in BER mode only (counted: stream:der_mode_refused...)",
     ],
     level_text=(
         "Runtime monitoring of the real builders, decoders and validators over generated builder inputs and over builder inputs taken from decoded foreign objects written by an independent encoder in every legal spelling (quick 52 000 objects, thorough 1 500 000, "
         "16 object kinds plus 14 re-issue flows), with three oracles per object: acceptance by the library's own strict decoder and validator inside the validity window, "
         "byte-identical re-encoding, and a hand-written table of every public accessor / iterator / nested encoder of the type evaluated on the built "
-        "value and on its decoded twin under catch_unwind and compared row by row, then again with one twin cloned / re-decoded / serde-round-tripped / (CRL) serial-cached or stored in a caching CrlStore, before and after. ASan repeats 32 000 objects, valgrind memcheck 130 objects (every slot five times) including "
+        "value and on its decoded twin under catch_unwind and compared row by row, then again with one twin cloned / re-decoded / serde-round-tripped / (CRL) serial-cached or stored in a caching CrlStore, before and after; "
+        "finally every structural and leaf encoder of both values is streamed into part-writing, interrupting and refusing sinks (quick 7.7 million sink runs) under the law 'Ok(()) implies exactly the object's octets arrived'. ASan repeats 32 000 objects, valgrind memcheck 130 objects (every slot five times) including "
         "the aws-lc signing and verification paths. This is the level the property calls for: it quantifies over builder inputs, and both the "
         "'accepted by its own decoder' and the 'same answers' parts are decidable per execution."
     ),
     level_note=(
         "Sampled, not exhaustive; accessor tables are hand-written from the public API of this revision (an accessor added later is not covered until "
-        "its row is added); internal captured layouts are judged only through public accessors and encoders."
+        "its row is added); internal captured layouts are judged only through public accessors and encoders. Sinks: limits, refusal offsets and refused calls are sampled per encoder run (the tail of the "
+        "encoding and the last call always, the rest seed-chosen), not enumerated; the list of streamed encoders is hand-written like the tables (c05_sink.rs); the EE certificate and CRL inside a SignedMessage "
+        "have no public accessor and are only streamed as part of SignedMessage.encode_ref."
     ),
-    technique="runtime oracle (decode + validate + re-encode + accessor tables built vs decoded) over generated builder inputs and over inputs decoded from foreign objects of an independent encoder (re-issue flows); ASan, valgrind",
+    technique="runtime oracle (decode + validate + re-encode + accessor tables built vs decoded + every encoder streamed into part-writing / refusing sinks) over generated builder inputs and over inputs decoded from foreign objects of an independent encoder (re-issue flows); ASan, valgrind",
     design_ref="DESIGN.md §4 C05",
 )
